@@ -1,0 +1,8 @@
+//go:build !verif
+
+// Package verifhook provides schedule-control points for external
+// verification harnesses. Without build tag "verif" all functions are
+// empty and get inlined away.
+package verifhook
+
+func Point(name string) {}
